@@ -58,8 +58,10 @@ Owner(PP, m) == IF PP[m].kind = "submodule" THEN PP[m].belongs ELSE m     \* the
 NSOf(PP, m) == PP[Owner(PP, m)].ns
 
 NoLA == [has |-> FALSE, min |-> 0, max |-> UNB]
-Node(name, kind, kids, sub) ==
-  [name |-> name, kind |-> kind,
+\* tmod: the module whose text holds the statement (for a submodule's text: its module); a type name written on the
+\* statement is resolved there, wherever a uses or an augment places the node
+Node(name, kind, kids, sub, tmod) ==
+  [name |-> name, kind |-> kind, tmod |-> IF kind \in {"leaf", "leaf-list"} THEN tmod ELSE "",
    cfg |-> Attr(kids, "config", "unset"), mand |-> Attr(kids, "mandatory", "unset"),
    dflt |-> IF kind \in {"leaf", "leaf-list", "choice"} THEN Args(kids, "default") ELSE <<>>,
    la |-> IF kind \in {"list", "leaf-list"}
@@ -119,7 +121,7 @@ Inst(PP, stmts, scope) ==      \* [nodes, err]
              IF s.kw \in DataKw THEN
                   LET sub == Inst(PP, s.kids, << [mod |-> m, kids |-> s.kids] >> \o scope)
                       nm == IF s.kw \in {"input", "output"} THEN s.kw ELSE s.arg
-                  IN [nodes |-> << Node(nm, s.kw, s.kids, sub.nodes) >>, err |-> sub.err \/ Dup(sub.nodes)]
+                  IN [nodes |-> << Node(nm, s.kw, s.kids, sub.nodes, Owner(PP, m)) >>, err |-> sub.err \/ Dup(sub.nodes)]
              ELSE IF s.kw = "uses" THEN
                   LET g == FindGrouping(PP, scope, s.arg) IN
                   IF ~g.found THEN [nodes |-> <<>>, err |-> TRUE]
@@ -366,10 +368,13 @@ FlatOp(n, path, ns, ro, top, inop, opc) ==
             ELSE {[p |-> p, kind |-> n.kind, ro |-> myro, ns |-> myns, implicit |-> n.implicit,
                    cfg |-> n.cfg, mand |-> n.mand, dflt |-> n.dflt, la |-> n.la, units |-> n.units, type |-> n.type, iff |-> n.iff,
                    \* the default values in force: the node's own, else (for a leaf that is not mandatory / a leaf-list
-                   \* without min-elements) the default of its type; "tdd" is the one typedef with a default ("tdv")
+                   \* without min-elements) the default of its type; "tdd" is the one typedef with a default: "tdv-" and the
+                   \* name of the module that defines it, and the tdd meant is the one of the module whose text holds the statement
+                   \* the identity an identityref's base statement names is looked up where the statement is written too
+                   idb |-> IF n.type = "identityref" THEN n.tmod ELSE "",
                    dv |-> IF n.dflt # <<>> THEN n.dflt
                           ELSE IF n.type = "tdd" /\ ((n.kind = "leaf" /\ n.mand # "true") \/ (n.kind = "leaf-list" /\ n.la.min = 0))
-                               THEN <<"tdv">> ELSE <<>>,
+                               THEN <<"tdv-" \o n.tmod>> ELSE <<>>,
                    opcfg |-> myopc]}
   IN me \cup UNION {FlatOp(n.kids[k], p, myns, myro, FALSE, myop, myopc) : k \in 1..Len(n.kids)}
 Flat(m) == FlatOf(trees[m], <<>>, P[m].ns, FALSE, TRUE)
